@@ -471,7 +471,8 @@ impl Sys {
                 let version = self.w[*p].version;
                 let left = self.w[*p].connect_out.saturating_sub(1);
                 let dis = self.w[*p].disconnect_out;
-                self.w[*p] = PeerWorld { connected: true, connect_out: left, disconnect_out: dis, version, ..Default::default() };
+                let sharing_off = self.w[*p].sharing_off;
+                self.w[*p] = PeerWorld { connected: true, connect_out: left, disconnect_out: dis, version, sharing_off, ..Default::default() };
                 In::Io(InterfaceEvent::Connected(pid(self, *p)))
             }
             Act::Disconnected(p) => {
@@ -549,6 +550,9 @@ impl Sys {
                         self.after_desync += 1;
                         w.wire.push_back(m);
                         continue;
+                    }
+                    if std::env::var("PV_DEBUG").is_ok() && pr == Proto::PeerSharing {
+                        eprintln!("DBG peersharing emit to peer {qi} sharing_off={} connected={}", w.sharing_off, w.connected);
                     }
                     if pr == Proto::PeerSharing && w.sharing_off {
                         out.push(Finding {
